@@ -169,3 +169,69 @@ def sym(name, interp_types=None, tag=None):
     if interp_types is not None and tag:
         interp_types[t] = tag
     return t
+
+
+def guided_compare(rep, rule, key, label, world, thunk, grids, oracle,
+                   hooks=None, value_eq=None, setup=None, depth=6,
+                   where=None):
+    """Lazy path enumeration: for every grid valuation the interpreter
+    follows the one path whose conditions hold on that valuation (the branch
+    is chosen by evaluating the condition term), then the outcome term is
+    evaluated and compared with the oracle.  Conditions that cannot be
+    evaluated are explored both ways (then the valuation is undecided)."""
+    syms = list(grids)
+    bad = None
+    n = 0
+    sigs = set()
+    for vals in itertools.product(*[list(grids[s]) for s in syms]):
+        val = dict(zip(syms, vals))
+        named = {show(s): v for s, v in val.items()}
+        want = oracle(named)
+        if want is None:
+            continue
+        n += 1
+        interp = Interp(world, inline_depth=depth)
+        memo = {}
+
+        def guide(t, val=val, memo=memo):
+            r = memo.get(t, memo)
+            if r is memo:
+                try:
+                    r = ev(t, val, hooks)
+                except Raised as e:
+                    memo[t] = e
+                    raise
+                memo[t] = r
+            elif isinstance(r, Raised):
+                raise r
+            return r
+        interp.guide = guide
+        if setup:
+            setup(interp)
+        outs = interp.explore(thunk, max_paths=64)
+        if len(outs) != 1 or not outs[0].exact:
+            rep.undecided(rule, key, '%s: input %s: %d paths %s' % (
+                label, named, len(outs), [o.notes for o in outs][:2]),
+                where)
+            return False
+        try:
+            got = outcome_value(outs[0], val, hooks)
+        except CannotEval as e:
+            rep.undecided(rule, key, '%s: input %s: %s' % (label, named, e),
+                          where)
+            return False
+        sigs.add(_sig(got)[:80])
+        if not same_outcome(got, want, value_eq) and bad is None:
+            bad = (named, got, want)
+    for s_ in list(sigs)[:8]:
+        rep.case({'case': label, 'outcome': s_}, (key, label, s_))
+    rep.evaluations += max(n - min(len(sigs), 8), 0)
+    if bad is None:
+        rep.check(rule, key, True, '%s: agrees with the oracle on %d '
+                  'inputs' % (label, n), where, case=label)
+        return True
+    rep.check(rule, key, False,
+              '%s: for input %s the code yields %s but the property '
+              'requires %s' % (label, bad[0], _sig(bad[1]), _sig(bad[2])),
+              where, case={'label': label, 'input': bad[0]})
+    return False
